@@ -29,6 +29,8 @@ RULES = [
     Rule('C03.R4', 'divisors are non-zero and API-sized allocations are bounded', 3),
     Rule('C03.R5', 'abort / throw sites reachable from the C API are guarded', 3),
     Rule('C03.R6', 'no loop compares its induction variable with a bound of a wider type', 30),
+    Rule('C03.R8', 'a scratch buffer of a chip wrapper sized through a rate-dependent object is re-allocated whenever that object is re-initialised, for the full block length', 2),
+    Rule('C03.R9', 'a loop jump of the sequencer keeps the time the running tick still owes (the audio loop and Tick terminate because the owed time only shrinks)', 3),
     Rule('C03.R7', 'every access through a caller-provided (buffer, size) pair stays below the size', 20),
 ]
 EXPLANATION = ('Interval abstract interpretation (engine E2) of every reachable function of the core units: parameter ranges are the C types\' ranges for '
@@ -111,6 +113,8 @@ def analyse(facts, tier):
     obls += r5(facts)
     obls += r6(facts, res, core)
     obls += r7(facts)
+    obls += r8_scratch(facts)
+    obls += r9_loop_jump(facts)
     if res['leaf_seen'] < 0.97 * res['leaf_total']:
         raise build.AnalysisBroken('E2 reached only %d of %d statements: the interpreter is dropping paths' % (res['leaf_seen'], res['leaf_total']))
     return obls, {'e2_functions': res['functions'], 'e2_seconds': round(res['secs'], 2), 'field_ranges': len(res['field_ranges']),
@@ -326,7 +330,7 @@ def throw_guarded(facts):
                     base = short(strip(obj).get('n', '')) if obj is not None and strip(obj).get('k') == 'MemberExpr' else ''
                     gf = guard_facts(fn, b, st)
                     txt = ' '.join(fact_str(f) for f in gf)
-                    guarded = ('capacity' in txt and 'size' in txt) or 'is_end' in txt
+                    guarded = ('capacity' in txt and 'size' in txt)
                     if base == 'activenotes':
                         guarded = True      # key = note number <= 127, capacity 128 (checked by C04.R5)
                     if not guarded:
@@ -422,4 +426,154 @@ def r7(facts):
                                why=have if ok else 'the access is not proven below `%s`: %s — the caller\'s buffer is overrun by one element or more' % (sz[0]['n'], have)))
     if n < 20:
         raise build.AnalysisBroken('C03.R7: only %d (buffer, size) accesses found' % n)
+    return out
+
+
+def r8_scratch(facts):
+    """chip wrappers (src/chips/*.cpp outside the vendored cores).  Anchor (use side): a pointer taken from a member buffer M is advanced
+    by v, v = O.f(frames), O a rate-dependent member object (MameOPNA: the PSG resampler; f = calculateInternalSampleSize).  Then
+    (a) every allocation of M in the class is `new T[.. O.f(buffer_size) ..]`: sized by the same method of the same object for the
+        block length constant of the buffered chip base;
+    (b) every re-creation / re-initialisation of O (assignment of O's member, a non-const method call on it other than f and
+        interpolate) is followed, on every path, by the re-allocation of M;
+    (c) the argument of the use-side call is the `frames` parameter of nativeGenerateN (<= buffer_size by the contract of
+        OPNChipBaseBufferedT, C03.R3)."""
+    out = []
+    n = 0
+    def local_init(fn, e):
+        e = strip(e)
+        if e is not None and e.get('k') == 'DeclRefExpr' and not e.get('parm'):
+            for b, j, st in fn.cfg.stmts():
+                if st['s'].get('k') == 'DeclStmt':
+                    for v in st['s']['decls']:
+                        if v['id'] == e.get('id') and v.get('init') is not None:
+                            return strip(v['init'])
+        return None
+    def member_root(fn, e, depth=0):
+        """the member (qualified name) an object expression stands for: `impl->psgrsm`, or a local initialised from it / from an assignment to it"""
+        e = strip(e)
+        if e is None or depth > 3:
+            return None
+        if e.get('k') == 'MemberExpr':
+            return e.get('n')
+        i = local_init(fn, e)
+        if i is not None:
+            ap = assign_parts(i)
+            return member_root(fn, ap[0] if ap else i, depth + 1)
+        return None
+    by_class = collections.defaultdict(list)
+    for fn in facts.all_fns():
+        rf = fn.relfile()
+        if rf.startswith('src/chips/') and rf.count('/') == 2 and fn.tree is not None and '::' in fn.name:
+            by_class[(rf, fn.name.split('::')[0])].append(fn)
+    for (rf, cls), fns in sorted(by_class.items()):
+        uses = []       # (fn, loc, M, O, callee, arg)
+        for fn in fns:
+            for b, j, st in fn.cfg.stmts():
+                for x in walk(st['s']):
+                    if x.get('k') == 'BinaryOperator' and x.get('op') == '+' and (x.get('t') or {}).get('p'):
+                        M = member_root(fn, x.get('l'))
+                        v = local_init(fn, x.get('r')) or strip(x.get('r'))
+                        if M is None or v is None or 'callee' not in v or v.get('obj') is None:
+                            continue
+                        O = member_root(fn, v['obj'])
+                        if O is None or not M.startswith(cls) or not O.startswith(cls):
+                            continue
+                        uses.append((fn, st['loc'], M, O, callee_name(v), strip(v['a'][0]) if v.get('a') else None))
+        for fn, loc, M, O, f, arg in uses:
+            n += 1
+            okc = arg is not None and arg.get('parm') and short(fn.name) == 'nativeGenerateN'
+            out.append(Obl('C03.R8', fn.name, '%s + %s.%s(%s)' % (short(M), short(O), short(f), show(arg)[:20] if arg else ''), loc, 'discharged' if okc else 'finding',
+                           why='offset computed for the frames parameter of nativeGenerateN (<= buffer_size)' if okc else
+                           'the offset into %s is computed for a length that is not the frames parameter of nativeGenerateN' % short(M)))
+            allocs = []
+            for g in fns:
+                for b2, j2, st2 in g.cfg.stmts():
+                    for y in walk(st2['s']):
+                        ap2 = assign_parts(y)
+                        if ap2 and strip(ap2[0]).get('n') == M and strip(ap2[1]).get('count') is not None:
+                            allocs.append((g, b2, j2, st2, strip(ap2[1])['count']))
+            if not allocs:
+                raise build.AnalysisBroken('C03.R8: no allocation of %s found in %s' % (M, cls))
+            for g, b2, j2, st2, cnt in allocs:
+                sc = [y for y in walk(cnt) if 'callee' in y and callee_name(y) == f and y.get('obj') is not None and member_root(g, y['obj']) == O]
+                K = strip(sc[0]['a'][0]) if sc and sc[0].get('a') else None
+                oka = K is not None and K.get('enumc') and 'buffer_size' in (K.get('n') or '')
+                out.append(Obl('C03.R8', g.name, '%s = new[%s]' % (short(M), show(cnt)[:60]), st2['loc'], 'discharged' if oka else 'finding',
+                               why='sized by %s.%s(buffer_size): the method and object that compute the per-block offset' % (short(O), short(f)) if oka else
+                               '%s is advanced by %s.%s(frames), which depends on the chip / PCM rate, but its allocation is not sized by %s.%s(buffer_size): at another rate the offset runs past the buffer' % (short(M), short(O), short(f), short(O), short(f))))
+            for g in fns:
+                reinits = []
+                for b2, j2, st2 in g.cfg.stmts():
+                    for y in walk(st2['s']):
+                        ap2 = assign_parts(y)
+                        if ap2 and strip(ap2[0]).get('n') == O and strip(ap2[1]).get('k') == 'CXXNewExpr':
+                            reinits.append((b2, j2, st2, 'assignment of %s' % short(O)))
+                        if 'callee' in y and y.get('obj') is not None and member_root(g, y['obj']) == O and short(callee_name(y)) not in (short(f), 'interpolate'):
+                            reinits.append((b2, j2, st2, '%s.%s()' % (short(O), short(callee_name(y)))))
+                for b2, j2, st2, what in reinits:
+                    ok = any(ag is g and ((ab == b2 and aj > j2) or (ab != b2 and ('b', ab) in (g.cfg.pdom().get(('b', b2)) or ()))) for ag, ab, aj, _, _ in allocs)
+                    out.append(Obl('C03.R8', g.name, '%s then re-allocation of %s' % (what, short(M)), st2['loc'], 'discharged' if ok else 'finding',
+                                   why='followed on every path by the allocation of %s' % short(M) if ok else
+                                   '%s changes the rate parameters behind %s() but %s keeps the size computed for the previous parameters: at another chip / PCM rate the per-block offset %s(frames) runs past the buffer' % (what, short(f), short(M), short(f))))
+    if n < 1 and facts.view in ('V0', 'V1'):
+        raise build.AnalysisBroken('C03.R8: no member buffer advanced by a rate-dependent size found (expected MameOPNA::Impl::psgbuffer in nativeGenerateN)')
+    return out
+
+
+def r9_loop_jump(facts):
+    """Tick(s) subtracts s from m_currentPosition.wait and calls processEvents until the wait is positive again; opn2_playFormat
+    repeats Tick while it returns 0.  Both terminate because every processed row adds its delay to the wait.  A loop jump
+    `m_currentPosition = <saved position>` would also take the saved wait back (the remainder recorded when the loop start was
+    first reached): after a tick longer than the loop body the wait is reset to the same negative value on every pass and never
+    becomes positive.  Rule: inside processEvents every such whole-position restore is followed, in the same block, by
+    `m_currentPosition.wait = <row-begin copy>.wait`, the row-begin copy being a local initialised from m_currentPosition at entry.
+    Exempt: m_trackBeginPosition (recorded before playback with wait == 0; never stored inside Tick / processEvents: checked)."""
+    out = []
+    fns = [f for f in facts.all_fns() if short(f.name) == 'processEvents' and f.tree is not None]
+    if not fns:
+        if facts.view in ('noSEQ',):
+            return out
+        raise build.AnalysisBroken('C03.R9: processEvents not found')
+    n = 0
+    for fn in fns:
+        rowbegin = set()
+        for b, j, st in fn.cfg.stmts():
+            if st['s'].get('k') == 'DeclStmt':
+                for v in st['s']['decls']:
+                    i = v.get('init')
+                    if i is not None and any(y.get('k') == 'MemberExpr' and short(y.get('n', '')) == 'm_currentPosition' for y in walk(i)) and \
+                            not any(y.get('k') == 'MemberExpr' and short(y.get('n', '')) not in ('m_currentPosition',) for y in walk(i)):
+                        rowbegin.add(v['id'])
+        for b, j, st in fn.cfg.stmts():
+            for x in walk(st['s']):
+                ap = assign_parts(x)
+                if not ap:
+                    continue
+                t = strip(ap[0])
+                if t.get('k') == 'MemberExpr' and short(t['n']) == 'm_trackBeginPosition':
+                    out.append(Obl('C03.R9', fn.name, 'store to m_trackBeginPosition during playback', st['loc'], 'finding',
+                                   why='m_trackBeginPosition is exempt from the jump rule because it is recorded before playback (wait == 0)'))
+                if not (t.get('k') == 'MemberExpr' and short(t['n']) == 'm_currentPosition' and 'Position' in ((t.get('t') or {}).get('s') or '')):
+                    continue
+                src = strip(ap[1])
+                sname = short(src.get('n', '')) if src.get('k') == 'MemberExpr' else show(src)
+                if sname == 'm_trackBeginPosition':
+                    out.append(Obl('C03.R9', fn.name, 'jump to %s' % sname, st['loc'], 'discharged', why='recorded before playback: its wait is 0, never a negative remainder', nontrivial=False))
+                    continue
+                n += 1
+                ok = False
+                for s2 in fn.cfg.blocks[b]['stmts'][j + 1:]:
+                    ap2 = assign_parts(s2['s'])
+                    if not ap2:
+                        continue
+                    l2, r2_ = strip(ap2[0]), strip(ap2[1])
+                    if l2.get('k') == 'MemberExpr' and short(l2['n']) == 'wait' and strip(l2.get('b')).get('k') == 'MemberExpr' and short(strip(l2['b'])['n']) == 'm_currentPosition':
+                        ok = r2_.get('k') == 'MemberExpr' and short(r2_['n']) == 'wait' and strip(r2_.get('b')).get('id') in rowbegin
+                        break
+                out.append(Obl('C03.R9', fn.name, 'jump to %s' % sname, st['loc'], 'discharged' if ok else 'finding',
+                               why='followed by m_currentPosition.wait = <row begin>.wait: the owed time is kept' if ok else
+                               'the jump takes the wait recorded at the loop start back: after a tick longer than the loop body (opn2_tickEvents, large tempo multiplier) every pass resets the wait to the same negative value, Tick returns 0 forever and opn2_play never returns'))
+    if n < 3:
+        raise build.AnalysisBroken('C03.R9: only %d loop jumps found in processEvents (expected the global loop and the two loop-stack jumps)' % n)
     return out
